@@ -180,6 +180,16 @@ func runC14Concurrent(ctx *Ctx, idx int, r *gen.R) Result {
 	for len(p.Flusher) < 3 {
 		p.Flusher = append(p.Flusher, conc.Step{K: conc.FFlush})
 	}
+	if idx%3 == 0 {
+		// "over all key/value sizes": values of 64 KiB and more set while the flusher is writing
+		for i := range p.Mutator {
+			if st := &p.Mutator[i]; st.K == conc.MSet && st.Big == 0 && r.P(25) {
+				st.Big = r.Range(65536, 70000)
+				p.BigVals++
+			}
+		}
+	}
+	ctx.Stats["c14.concurrent-big-values"] += int64(p.BigVals)
 	s := sched.New(&sched.Random{Next: r.Intn, Stick: []int{0, 30, 60}[r.Intn(3)]})
 	h, _ := conc.Run(p, conc.Mode{Sched: s})
 	fs, _, _ := conc.Check(p, h, 30*time.Second)
